@@ -923,6 +923,9 @@ pub fn run_c16(ctx: &RunCtx) {
     let mut forms: Vec<(String, String)> = stmt_forms().into_iter().map(|(n, s)| (n, stmt_text(&s))).collect();
     // the empty statement parses alone without diagnostics (it is not part of the C04 reference syntax)
     forms.push(("empty".to_string(), ";".to_string()));
+    // a bare annotation line and a bare pragma line are statements of their own
+    forms.push(("bare-annotation".to_string(), "@note a b\n".to_string()));
+    forms.push(("bare-annotation-2".to_string(), "@x\n".to_string()));
     let nf = forms.len();
     // all ordered pairs x contexts
     ctx.par_units(nf, |i, st| {
